@@ -118,6 +118,9 @@ def stmt_templates():
         "insert.table": lambda Q, T, O: Q.into(T).insert(1),
         "insert.select": lambda Q, T, O: Q.into(O).from_(T).join(O2).cross().select(F(T)),
         "insert.columns": lambda Q, T, O: Q.into(T).columns(F(T, "c")).insert(1),
+        # several VALUES rows, the reference not in the first one / not in the first position
+        "insert.values_later_row": lambda Q, T, O: Q.into(O).insert(1, 2).insert(F(T), 3).insert(4, F(T, "y") + 1),
+        "insert.values_first_row": lambda Q, T, O: Q.into(O).insert(F(T), 2).insert(3, 4),
         "update.table": lambda Q, T, O: Q.update(T).join(O).on(F(T) == F(O, "o")).set(F(T, "x"), 1),
         "update.set_value": lambda Q, T, O: Q.update(O).join(T).on(F(T) == F(O, "o")).set(F(O, "x"), F(T, "v")),
         "update.where": lambda Q, T, O: Q.update(O).join(O2).on(F(O2, "z") == F(O, "o")).set(F(O, "x"), 1).where(F(T, "w") == 1),
